@@ -360,6 +360,7 @@ def random_cases(draw):
             last_sibling[parents[i]] = i
     # whatever produced a name (tags, tuples, counters, case variants): its text must not offer the separator a second place to split
     names = [n if unambiguous(rr.name_text(n), sep) else "n%d" % i for i, n in enumerate(names)]
+    links = draw(st.lists(st.integers(0, size - 1), max_size=3, unique=True)) if draw(st.integers(0, 3)) == 0 else []
     texts = [rr.name_text(n) for n in names]
     comp = st.one_of(st.sampled_from(texts), st.sampled_from(texts), st.sampled_from(texts).map(lambda s: s.swapcase()), st.sampled_from(["..", "..", ".", "", "zz", "a"]), name_strategy(sep))
     paths = []
@@ -380,7 +381,7 @@ def random_cases(draw):
             path = path + sep
         paths.append([draw(st.integers(0, size - 1)), path])
     muts = draw(strategies.tree_mutations(rename_values=st.sampled_from(texts)))
-    return {"shape": shape, "names": names, "sep": sep, "pathattr": pathattr, "ignorecase": ic, "roundtrip": unique, "flip": draw(st.integers(0, 65535)), "paths": paths, "mutations": muts, "prime_glob": draw(st.booleans()), "foreign_first": draw(st.integers(0, 2)) == 0, "unreprable": draw(st.integers(0, 5)) == 0}
+    return {"links": links, "shape": shape, "names": names, "sep": sep, "pathattr": pathattr, "ignorecase": ic, "roundtrip": unique, "flip": draw(st.integers(0, 65535)), "paths": paths, "mutations": muts, "prime_glob": draw(st.booleans()), "foreign_first": draw(st.integers(0, 2)) == 0, "unreprable": draw(st.integers(0, 5)) == 0}
 
 
 ENUM_COMPS = ["a", "b", "A", "..", ".", "", "zz"]
